@@ -1,5 +1,5 @@
 (* One entry point for the harness: request (list Z) -> reply (list Z). *)
-From JP Require Import Base.Json Extract.Wire Extract.WireAst Model.Slice Spec.Slice Model.Ast Model.Eval Spec.Sem Spec.Compare Model.Tokens Model.Lex Model.PyFloat Model.Parse Model.Api Spec.Rfc9535Grammar Spec.Types Spec.StringLit Model.Position Spec.Position Model.Serialize Spec.NormPath.
+From JP Require Import Base.Json Extract.Wire Extract.WireAst Model.Slice Spec.Slice Model.Ast Model.Eval Spec.Sem Spec.Compare Model.Tokens Model.Lex Model.PyFloat Model.Parse Model.Api Spec.Rfc9535Grammar Spec.Types Spec.StringLit Model.Position Spec.Position Model.Serialize Spec.NormPath Model.History.
 
 Definition iota_json (len : Z) : list json := map (fun k => JNum (NInt (Z.of_nat k))) (seq 0 (Z.to_nat len)).
 Definition enc_sel (r : list (Z * json)) : list Z := enc_list (fun p => fst p :: enc_json (snd p)) r.
@@ -144,6 +144,36 @@ Definition op_repr (r : list Z) : list Z :=
 Definition op_norm_path (r : list Z) : list Z :=
   match dec_list dec_key r with Some (loc, _) => enc_str (norm_path loc) | None => bad_request end.
 
+(* [12; rx table; ops] : a history of API operations, see Model/History.v *)
+Definition dec_hop (t : list rxrow) : dec hop := fun l =>
+  match l with
+  | 0 :: depth :: lo :: hi :: r =>
+      match dec_registry r with
+      | Some (rg, r') => Some (HNewEnv {| min_idx := lo; max_idx := hi; max_depth := Z.to_nat depth; reg := rg ++ builtin_registry; rx := rx_lookup t |}, r')
+      | None => None end
+  | 1 :: e :: r => match dec_fdecl r with Some ((nm, d), r') => Some (HRegister (Z.to_nat e) nm d, r') | None => None end
+  | 2 :: e :: r => match dec_str r with Some (t', r') => Some (HCompile (Z.to_nat e) t', r') | None => None end
+  | 3 :: c :: r => match dec_json r with Some (v, r') => Some (HApply (Z.to_nat c) v, r') | None => None end
+  | 4 :: e :: r => match dec_str r with Some (t', r1) =>
+                   match dec_json r1 with Some (v, r') => Some (HFindEnv (Z.to_nat e) t' v, r') | None => None end | None => None end
+  | 5 :: r => match dec_str r with Some (t', r1) =>
+              match dec_json r1 with Some (v, r') => Some (HFindModule t' v, r') | None => None end | None => None end
+  | _ => None
+  end.
+Definition enc_hout (o : hout) : list Z :=
+  match o with
+  | HNone => [0]
+  | HNodes r => 1 :: enc_result (enc_list enc_node) r
+  | HCompiled r => 2 :: enc_result (fun n => [Z.of_nat n]) r
+  end.
+Definition op_history (r : list Z) : list Z :=
+  match dec_list dec_rxrow r with
+  | Some (t, r1) =>
+      match dec_list (dec_hop t) r1 with
+      | Some (ops, _) => enc_list enc_hout (snd (hrun (mk_cfg 100 builtin_registry t) {| envs := []; compiled := [] |} ops))
+      | None => bad_request end
+  | None => bad_request end.
+
 (* opcodes: model side 1..99, specification side 101..199 *)
 Definition dispatch (req : list Z) : list Z :=
   match req with
@@ -154,6 +184,7 @@ Definition dispatch (req : list Z) : list Z :=
   | 5 :: r => op_str_query r
   | 6 :: r => op_path r
   | 21 :: r => op_repr r
+  | 12 :: r => op_history r
   | 19 :: r => op_errpos r
   | 20 :: r => op_float r
   | 103 :: r => op_sem r
